@@ -74,7 +74,9 @@ func setupTime(fx *vfixture, tm *TimeIn, vc vcase) {
 	case "garbage":
 		fx.tsToken = func(sig []byte) []byte { return []byte("this is not a time-stamp token") }
 	case "wrongMessage":
-		fx.tsToken = func(sig []byte) []byte { return tsaGood().token(append([]byte("other:"), sig...), at(cs.T), cs.Acc*unit) }
+		fx.tsToken = func(sig []byte) []byte {
+			return tsaGood().token(append([]byte("other:"), sig...), at(cs.T), cs.Acc*unit)
+		}
 	case "untrusted":
 		fx.tsToken = func(sig []byte) []byte { return tsaOther().token(sig, at(cs.T), cs.Acc*unit) }
 	case "misPurposed":
